@@ -123,6 +123,14 @@ class Acc:
     def cap(self, name):
         self.caps.add(name)
 
+    def exception(self, e, case, where="", size=None):
+        """The property promises a result for this case, the implementation raised instead."""
+        self.violation(
+            {"oracle": "returns_a_result_not_an_exception", "exception": type(e).__name__, "where": where},
+            {"case": case, "observed": f"{type(e).__name__}: {str(e)[:200]}", "expected": "the result the property describes (no exception)"},
+            size=size,
+        )
+
     def harness_error(self, what):
         if len(self.harness_errors) < 5:
             self.harness_errors.append(what)
